@@ -247,13 +247,16 @@ Definition resolve_token (tok : list byte) : obj :=
 (* symbols                                                                                       *)
 (* ------------------------------------------------------------------------------------------ *)
 Definition need_pipe (b : byte) : bool := (nth (N.to_nat b) needpipe_table 46 =? 120)%N.
-(* Symbol.needPipes (repo_fixes C03-3): a byte needPipeMap flags, or a name beginning with a sign or a digit that
-   the reader (read base ten, double-float default) would not resolve to a symbol *)
+(* numberLike (code.go): the regular expressions resolveToken tries, with the default read base *)
+Definition numeric_like (buf : list byte) : bool :=
+  int_rx buf || float_rx None buf || float_rx (Some 101%N) buf || float_rx (Some 100%N) buf ||
+  float_rx (Some 115%N) buf || float_rx (Some 102%N) buf || float_rx (Some 108%N) buf || ratio_rx buf.
+(* Symbol.needPipes (repo_fixes C03-3): a byte needPipeMap flags, or a name beginning with a sign or a digit whose
+   lower-cased spelling is that of a number *)
 Definition numeric_first (b : byte) : bool := is_digit b || (b =? 43)%N || (b =? 45)%N.
-Definition reads_as_symbol (name : list byte) : bool := match resolve_token name with OSym _ => true | _ => false end.
 Definition need_pipes (name : list byte) : bool :=
   existsb need_pipe name ||
-  match name with b :: _ => numeric_first b && negb (reads_as_symbol name) | [] => false end.
+  match name with b :: _ => numeric_first b && numeric_like (map lower name) | [] => false end.
 (* Symbol.Readably *)
 Definition symbol_text (c : pcfg) (name : list byte) : list byte :=
   match name with
